@@ -1,9 +1,12 @@
 package redis
 
-import "github.com/mgtv-tech/redis-GunYu/pkg/redis/client"
+import (
+	"github.com/mgtv-tech/redis-GunYu/pkg/log"
+	"github.com/mgtv-tech/redis-GunYu/pkg/redis/client"
+)
 
 // VerifNewStandalone builds a StandaloneRedis over a harness-supplied connection
 // (the real constructor dials the network).
 func VerifNewStandalone(cli client.Redis) *StandaloneRedis {
-	return &StandaloneRedis{cli: cli}
+	return &StandaloneRedis{cli: cli, logger: log.WithLogger("[verif] ")}
 }
